@@ -38,6 +38,8 @@ def nontrivial(ops, tags):
 
 def rand_history(rng):
     ops = []
+    if rng.random() < 0.15:
+        ops.append("careless")   # the connect handler lets the exception of a failed upgrade (peer already reset) escape
     rxsize = rng.choice([1, 7, 4096])
     ops.append("rx %d %d" % (rng.choice([1, 2, 0]), rxsize))
     nxt = 1
